@@ -20,7 +20,7 @@ func init() {
 
 func (c10) ID() string { return "C10" }
 
-const c10Variants = 9
+const c10Variants = 10
 
 var c10Programs = []string{
 	"a && b\n", "a || b\n", "case x in a) b;; esac\n", "a >>f\n", "a >|f\n", "a <<E\nb\nE\n", "a <<-E\n\tb\nE\n", "a <>f\n", "a <&3\n", "a >&2\n", "((x))\n", "$((1))\n",
@@ -125,9 +125,12 @@ func c10Variant(v int, salt uint64) gosim.ReaderPlan {
 		return gosim.ReaderPlan{Kind: "scanner", FaultAt: -1, FaultCall: -2, FaultKind: "persistent"}
 	case 7:
 		return gosim.ReaderPlan{Kind: "scanner", FaultAt: -1, FaultCall: -2, FaultKind: "transient", Unread: []string{"", "multi"}[salt/8%2]}
-	default:
+	case 8:
 		// one failure, after which the source reports end of input
 		return gosim.ReaderPlan{Kind: "scanner", FaultAt: -2, FaultKind: "once-then-eof"}
+	default:
+		// an io.Reader that is also an io.WriterTo (like *os.File)
+		return gosim.ReaderPlan{Kind: "reader+writerto", FaultAt: -2, FaultKind: "persistent", Chunk: []int{0, 3}[salt/10%2]}
 	}
 }
 
